@@ -4,7 +4,7 @@ From Gv Require Import lib.Bytes lib.Json lib.Gql lib.Exec
      C01.ProofsBase C01.ProofsFuel C01.ProofsSplit C01.ProofsSim C01.ProofsJoin C01.ProofsOverlap
      C01.ProofsTwoStep C01.ProofsViol C01.ProofsCtxBase C01.ProofsCtx C01.ProofsTwoStepWf C01.ProofsPlanAlg
      C01.ProofsPlan C01.ProofsPlanOk C01.ProofsDedup C01.ProofsListHop
-     C01.ProofsTvStatic C01.ProofsTvDefs C01.ProofsTvHidden C01.ProofsPlanGen C01.ProofsPlan2 C01.ProofsFuelSuff C01.ProofsPlan3.
+     C01.ProofsTvStatic C01.ProofsTvDefs C01.ProofsTvHidden C01.ProofsPlanGen C01.ProofsPlan2 C01.ProofsFuelSuff C01.ProofsSelEq C01.ProofsPlan3 C01.ProofsPlan3Keys C01.ProofsPlan3Fetch.
 Open Scope N_scope.
 
 (* ---- unfolding of the client's selection / the projection of a plan tree ---- *)
@@ -42,11 +42,12 @@ Section NoSpread.
   Variable kq : nat.
   Variable decls : list (name * list name).
   Variable rdecls : list rdecl.
+  Variable ab : bool.
 
   Lemma static_nospread : forall k,
-      (forall T pt, pt_static_b sc subs frags vdsM supM kq decls rdecls k T pt = true ->
+      (forall T pt, pt_static_b sc subs frags vdsM supM kq ab decls rdecls k T pt = true ->
                     sels_nospread (pt_proj pt) = true /\ sels_nospread (pt_client pt) = true) /\
-      (forall T it, item_static_b sc subs frags vdsM supM kq decls rdecls k T it = true ->
+      (forall T it, item_static_b sc subs frags vdsM supM kq ab decls rdecls k T it = true ->
                     sel_nospread (item_proj it) = true /\ sel_nospread (item_client it) = true).
   Proof.
     induction k as [|k [IHp IHi]]; [split; intros; discriminate|].
@@ -60,13 +61,17 @@ Section NoSpread.
         apply filter_In in Hti. destruct Hti as [Hti _]. apply (IHi T _ (H ti Hti)).
       + apply forallb_forall. intros s Hs. apply in_map_iff in Hs. destruct Hs as (ti & <- & Hti).
         apply (IHi T _ (H ti Hti)).
-    - intros T [s|a n args sh T' sub] H; cbn [item_static_b] in H.
+    - intros T [s|a n args sh T' sub|a n args sh T' csel rsel alts] H; cbn [item_static_b] in H.
       + apply andb_true_iff in H. destruct H as [_ H]. cbn [item_proj item_client]. split; exact H.
       + apply andb_true_iff in H. destruct H as [_ H].
         destruct (IHp T' sub H) as [H1 H2].
         change (item_proj (PDown a n args sh T' sub)) with (SField a n args [] (pt_proj sub)).
         change (item_client (PDown a n args sh T' sub)) with (SField a n args [] (pt_client sub)).
         rewrite !nospread_field. split; assumption.
+      + apply andb_true_iff in H. destruct H as [H _].
+        apply andb_true_iff in H. destruct H as [H Hr].
+        apply andb_true_iff in H. destruct H as [_ Hc].
+        cbn [item_proj item_client]. rewrite !nospread_field. split; assumption.
   Qed.
 End NoSpread.
 
@@ -186,6 +191,214 @@ Section LField.
   Qed.
 End LField.
 
+
+(* ---- from the value of a composite field to its one-member result, for ANY way [LO] of processing the objects ---- *)
+Section GenFinal.
+  Variable LO : bool -> json -> vres.
+  Hypothesis HLOnull : forall nn, LO nn JNull = (JNull, [], false).
+
+  Definition trG (key : name) (sh : fshape) (r : sres) : sres :=
+    match r with
+    | (Some [(_, v)], e0) => let x := vres_sres key (lift_shape LO sh v) in (fst x, e0 ++ snd x)
+    | _ => r
+    end.
+
+  Definition item_inv (nn : bool) (c1 cM : cres) : Prop :=
+    (c_viol cM = true -> c_errs cM <> []) /\
+    (c_viol c1 = true -> c_viol cM = true /\ c_errs c1 <> []) /\
+    (c_viol c1 = false ->
+     let r := LO nn (c_json c1) in
+     fst (fst r) = c_json cM /\ snd r = c_viol cM /\ (c_errs c1 ++ snd (fst r) = [] <-> c_errs cM = [])).
+
+  Lemma item_inv_null nn q1 q2 errs1 errs2 :
+    (errs1 = [] <-> errs2 = []) -> item_inv nn (itemwrap nn q1 (cnull errs1)) (itemwrap nn q2 (cnull errs2)).
+  Proof.
+    intros He. unfold item_inv, itemwrap, nonnull_wrap, cnull. destruct nn; cbn [c_json c_errs c_viol fst snd].
+    - split; [intros _; destruct errs2; discriminate|]. split; [intros _; split; [reflexivity|destruct errs1; discriminate]|discriminate].
+    - split; [discriminate|]. split; [discriminate|]. intros _. rewrite HLOnull. cbn [fst snd]. rewrite app_nil_r. repeat split; tauto.
+  Qed.
+
+  (* an object value: the source's result [r1] processed by [LO] against the monolith's result [rM] *)
+  Definition objres (r : sres) : cres :=
+    match r with
+    | (Some l, errs) => {| c_json := JObj l; c_errs := errs; c_viol := false |}
+    | (None, errs) => cnull errs
+    end.
+  Lemma item_inv_obj nn q1 q2 (r1 rM : sres) :
+    (fst r1 = None -> snd r1 <> []) -> (fst rM = None -> snd rM <> []) ->
+    match r1 with
+    | (Some l1, e1) =>
+      exists (F : option (list (bytes * json)) * list xerr),
+      LO nn (JObj l1) = (match F with (Some l', e) => (JObj l', e, false) | (None, e) => (JNull, e, nn) end) /\
+      fst F = fst rM /\ (e1 ++ snd F = [] <-> snd rM = [])
+    | (None, _) => fst rM = None
+    end ->
+    item_inv nn (itemwrap nn q1 (objres r1)) (itemwrap nn q2 (objres rM)).
+  Proof.
+    intros Hn1 HnM HP. destruct r1 as [[l1|] e1]; cbn [fst snd] in *.
+    - destruct HP as ([oF eF] & HLO & HP1 & HP2). cbn [fst snd] in HP1, HP2.
+      destruct rM as [[l2|] e2]; cbn [fst snd] in *.
+      + subst oF. unfold item_inv, itemwrap, nonnull_wrap, objres. destruct nn; cbn [c_json c_errs c_viol];
+          (split; [discriminate|]); (split; [discriminate|]); intros _; rewrite HLO; cbn [fst snd]; repeat split; tauto.
+      + subst oF. assert (He2 : e2 <> []) by (apply HnM; reflexivity).
+        unfold item_inv, itemwrap, nonnull_wrap, objres, cnull. destruct nn; cbn [c_json c_errs c_viol].
+        * split; [intros _; destruct e2; [congruence|discriminate]|]. split; [discriminate|]. intros _.
+          rewrite HLO. cbn [fst snd]. split; [reflexivity|]. split; [reflexivity|]. destruct e2; [congruence|]. rewrite HP2. split; discriminate.
+        * split; [discriminate|]. split; [discriminate|]. intros _. rewrite HLO. cbn [fst snd].
+          split; [reflexivity|]. split; [reflexivity|]. exact HP2.
+    - assert (He1 : e1 <> []) by (apply Hn1; reflexivity).
+      destruct rM as [[l2|] e2]; cbn [fst snd] in *; [discriminate|].
+      assert (He2 : e2 <> []) by (apply HnM; reflexivity).
+      unfold objres. apply item_inv_null. tauto.
+  Qed.
+
+  (* ---- the two list loops ---- *)
+  Definition loop_inv (nni : bool) (L1 LM : list json * list xerr * bool) : Prop :=
+    (snd LM = true -> snd (fst LM) <> []) /\
+    (snd L1 = true -> snd LM = true /\ snd (fst L1) <> []) /\
+    (snd L1 = false ->
+     let rs := map (LO nni) (fst (fst L1)) in
+     map (fun r : vres => fst (fst r)) rs = fst (fst LM) /\
+     existsb (fun r : vres => snd r) rs = snd LM /\
+     (snd (fst L1) ++ flat_map (fun r : vres => snd (fst r)) rs = [] <-> snd (fst LM) = [])).
+
+  Lemma loop_step nni (cf1 cfM : fval -> list pel -> cres) q1 q2 items :
+    (forall it i, item_inv nni (cf1 it (q1 ++ [PI i])) (cfM it (q2 ++ [PI i]))) ->
+    forall i, loop_inv nni (lst_loop cf1 q1 i items) (lst_loop cfM q2 i items).
+  Proof.
+    intros H. induction items as [|it rest IH]; intros i.
+    - cbn [lst_loop]. unfold loop_inv. cbn [fst snd map existsb flat_map app].
+      split; [discriminate|]. split; [discriminate|]. intros _. repeat split; tauto.
+    - cbn [lst_loop]. specialize (IH (i + 1)).
+      destruct (lst_loop cf1 q1 (i + 1) rest) as [[out1 errs1] viol1].
+      destruct (lst_loop cfM q2 (i + 1) rest) as [[outM errsM] violM].
+      destruct IH as (I1 & I2 & I3). cbn [fst snd] in I1, I2, I3.
+      destruct (H it i) as (J1 & J2 & J3).
+      unfold loop_inv. cbn [fst snd].
+      split; [|split].
+      + intros Hor. apply orb_true_iff in Hor. intros Hn. apply app_nil_iff in Hn. destruct Hn as [Hn1 Hn2].
+        destruct Hor as [Hv|Hv]; [apply (J1 Hv Hn1)|apply (I1 Hv Hn2)].
+      + intros Hor. apply orb_true_iff in Hor. destruct Hor as [Hv|Hv].
+        * destruct (J2 Hv) as [K1 K2]. rewrite K1. split; [reflexivity|].
+          intros Hn. apply app_nil_iff in Hn. apply K2. apply Hn.
+        * destruct (I2 Hv) as [K1 K2]. rewrite K1, orb_true_r. split; [reflexivity|].
+          intros Hn. apply app_nil_iff in Hn. apply K2. apply Hn.
+      + intros Hor. apply orb_false_iff in Hor. destruct Hor as [Hv1 Hv2].
+        specialize (J3 Hv1). specialize (I3 Hv2). cbv zeta in J3, I3 |- *.
+        destruct J3 as (K1 & K2 & K3). destruct I3 as (K4 & K5 & K6).
+        cbn [map existsb flat_map].
+        split; [rewrite K1, K4; reflexivity|]. split; [rewrite K2, K5; reflexivity|].
+        rewrite !app_nil_iff in *. tauto.
+  Qed.
+
+  Lemma obj_final nn key q' p' (c1 cM : cres) :
+    item_inv nn (itemwrap nn q' c1) (itemwrap nn p' cM) ->
+    sres_weq (trG key (ShObj nn) (field_result nn key q' c1)) (field_result nn key p' cM).
+  Proof.
+    intros (J1 & J2 & J3). unfold field_result.
+    change (if nn then nonnull_wrap q' c1 else c1) with (itemwrap nn q' c1).
+    change (if nn then nonnull_wrap p' cM else cM) with (itemwrap nn p' cM).
+    destruct (c_viol (itemwrap nn q' c1)) eqn:Ev1.
+    - destruct (J2 eq_refl) as [K1 K2]. rewrite K1. cbn [trG]. split; [reflexivity|]. cbn [snd].
+      specialize (J1 K1). tauto.
+    - specialize (J3 eq_refl). cbv zeta in J3. destruct J3 as (K1 & K2 & K3).
+      unfold trG. cbn [lift_shape].
+      destruct (LO nn (c_json (itemwrap nn q' c1))) as [[v fe] viol]. cbn [fst snd] in K1, K2, K3.
+      rewrite <- K2. subst v. unfold vres_sres.
+      destruct viol; cbn [fst snd]; (split; [reflexivity|exact K3]).
+  Qed.
+
+  Lemma list_final nnl nni key q' p' L1 LM :
+    loop_inv nni L1 LM ->
+    sres_weq (trG key (ShList nnl nni) (field_result nnl key q' (list_finish L1)))
+             (field_result nnl key p' (list_finish LM)).
+  Proof.
+    destruct L1 as [[out1 errs1] viol1]. destruct LM as [[outM errsM] violM].
+    intros (I1 & I2 & I3). cbn [fst snd] in I1, I2, I3. unfold list_finish.
+    destruct viol1.
+    - destruct (I2 eq_refl) as [-> K2]. specialize (I1 eq_refl).
+      unfold field_result, nonnull_wrap, cnull. destruct nnl; cbn [c_json c_errs c_viol trG fst snd].
+      + split; [reflexivity|]. cbn [snd]. destruct errs1, errsM; try congruence; split; discriminate.
+      + cbn [lift_shape vres_sres fst snd]. rewrite app_nil_r. split; [reflexivity|]. cbn [snd]. tauto.
+    - specialize (I3 eq_refl). cbv zeta in I3. destruct I3 as (K1 & K2 & K3).
+      assert (HL : field_result nnl key q' {| c_json := JArr out1; c_errs := errs1; c_viol := false |} =
+                   (Some [(key, JArr out1)], errs1)).
+      { unfold field_result, nonnull_wrap. destruct nnl; reflexivity. }
+      rewrite HL. unfold trG. cbn [lift_shape]. cbv zeta. rewrite K2.
+      destruct violM.
+      + specialize (I1 eq_refl).
+        unfold field_result, nonnull_wrap, cnull, vres_sres. destruct nnl; cbn [c_json c_errs c_viol fst snd].
+        * split; [reflexivity|]. cbn [snd]. destruct errsM; [congruence|]. rewrite K3. split; discriminate.
+        * split; [reflexivity|]. cbn [snd]. exact K3.
+      + rewrite K1.
+        assert (HR : field_result nnl key p' {| c_json := JArr outM; c_errs := errsM; c_viol := false |} =
+                     (Some [(key, JArr outM)], errsM)).
+        { unfold field_result, nonnull_wrap. destruct nnl; reflexivity. }
+        rewrite HR. unfold vres_sres. cbn [fst snd]. split; [reflexivity|exact K3].
+  Qed.
+  Lemma null_final nnl nni key q' p' errs1 errs2 :
+    (errs1 = [] <-> errs2 = []) ->
+    sres_weq (trG key (ShList nnl nni) (field_result nnl key q' (cnull errs1)))
+             (field_result nnl key p' (cnull errs2)).
+  Proof.
+    intros He. unfold field_result, nonnull_wrap, cnull. destruct nnl; cbn [c_json c_errs c_viol trG fst snd].
+    - split; [reflexivity|]. cbn [snd]. destruct errs1, errs2; split; discriminate.
+    - cbn [lift_shape vres_sres fst snd]. rewrite app_nil_r. split; [reflexivity|]. cbn [snd]. exact He.
+  Qed.
+
+  (* ---- a composite field, object or list valued, given the step for one object value ---- *)
+  Section GenField.
+    Variable U : universe.
+    Variable sc : schema.
+    Variable vars : list (bytes * json).
+    Variables (f2 : nat) (T : name) (e : entity) (a : option name) (n : name) (args : list argument) (sh : fshape) (T' : name).
+    Variables (X1 XM : list selection) (p q : list pel).
+    Hypothesis Hname : bytes_eqb n s_typename = false.
+    Hypothesis Hfty : field_ty_ok sc T n sh T' = true.
+    Hypothesis Elk : is_leaf_kind sc T' = Some false.
+    Hypothesis Hns1 : sels_nospread X1 = true.
+    Hypothesis HnsM : sels_nospread XM = true.
+    Hypothesis Hb1 : (fuel_bound sc [SField a n args [] X1] <= f2)%nat.
+    Hypothesis HbM : (fuel_bound sc [SField a n args [] XM] <= f2)%nat.
+    Hypothesis Hstep : forall nn cargs it q1 q2,
+        item_inv nn (itemwrap nn q1 (complete_obj sc U [] vars Mono f2 T' cargs it X1 q1))
+                    (itemwrap nn q2 (complete_obj sc U [] vars Mono f2 T' cargs it XM q2)).
+
+    Lemma gen_field :
+      sres_weq (trG (response_name a n) sh
+                    (exec_sels sc U [] vars Mono f2 T {| ov_ent := e; ov_repr := None |} [SField a n args [] X1] q))
+               (exec_sels sc U [] vars Mono f2 T {| ov_ent := e; ov_repr := None |} [SField a n args [] XM] p).
+    Proof.
+      unfold field_ty_ok in Hfty.
+      destruct (find_type T (s_types sc)) as [td|] eqn:Etd; [|discriminate].
+      destruct (find_field n (td_fields td)) as [fd|] eqn:Efd; [|discriminate].
+      apply ty_eqb_eq in Hfty.
+      set (ov := {| ov_ent := e; ov_repr := None |}).
+      assert (Hn1 : no_oof (snd (exec_sels sc U [] vars Mono f2 T ov [SField a n args [] X1] q)) = true).
+      { apply exec_sels_fuel_sufficient; [|exact Hb1]. rewrite nospread_cons, nospread_field, Hns1. reflexivity. }
+      assert (Hn2 : no_oof (snd (exec_sels sc U [] vars Mono f2 T ov [SField a n args [] XM] p)) = true).
+      { apply exec_sels_fuel_sufficient; [|exact HbM]. rewrite nospread_cons, nospread_field, HnsM. reflexivity. }
+      destruct sh as [nn|nnl nni]; cbn [shape_ty] in Hfty.
+      - assert (Hle : (f2 <= hop_fuel nn f2)%nat) by (unfold hop_fuel; clear; destruct nn; lia).
+        rewrite <- (exec_sels_fuel_mono sc U [] vars Mono f2 (hop_fuel nn f2) T ov _ q Hle Hn1).
+        rewrite <- (exec_sels_fuel_mono sc U [] vars Mono f2 (hop_fuel nn f2) T ov _ p Hle Hn2).
+        rewrite (hop_exec sc U [] vars T ov a n args [] q nn T' td fd Hname Etd Efd Hfty Elk f2).
+        rewrite (hop_exec sc U [] vars T ov a n args [] p nn T' td fd Hname Etd Efd Hfty Elk f2).
+        cbn [included].
+        apply obj_final. apply Hstep.
+      - assert (Hle : (f2 <= list_hop_fuel nnl nni f2)%nat) by (unfold list_hop_fuel; clear; destruct nnl, nni; lia).
+        assert (H1f : (1 <= f2)%nat) by (clear -Hb1; unfold fuel_bound in Hb1; lia).
+        rewrite <- (exec_sels_fuel_mono sc U [] vars Mono f2 (list_hop_fuel nnl nni f2) T ov _ q Hle Hn1).
+        rewrite <- (exec_sels_fuel_mono sc U [] vars Mono f2 (list_hop_fuel nnl nni f2) T ov _ p Hle Hn2).
+        rewrite (list_field_exec sc U [] vars T ov a n args q nnl nni T' td fd Hname Etd Efd Hfty Elk f2 _ H1f).
+        rewrite (list_field_exec sc U [] vars T ov a n args p nnl nni T' td fd Hname Etd Efd Hfty Elk f2 _ H1f).
+        destruct (list_src (hop_fv ov n)) as [items|].
+        + apply list_final. apply loop_step. intros it i. unfold item_c. apply Hstep.
+        + apply null_final. apply list_null_errs_iff.
+    Qed.
+  End GenField.
+End GenFinal.
+
 Section FLStep.
   Variable U : universe.
   Variables (sc : schema) (subs : list schema) (vdsM : list vardef) (supM : list (bytes * json)).
@@ -193,11 +406,14 @@ Section FLStep.
   Variable tn : bool.
   Variable decls : list (name * list name).
   Variable rdecls : list rdecl.
+  Variable ab : bool.
 
   Notation vars := (pvars vdsM supM).
   Notation fill' := (fill U sc subs [] vdsM supM f2 tn).
   Notation lift' := (lift U sc subs [] vdsM supM f2 tn).
+  Notation lifta' := (lifta U sc subs [] vdsM supM f2 tn).
   Notation tr3' := (tr3 U sc subs vdsM supM f2 tn).
+  Notation tr3a' := (tr3a U sc subs vdsM supM f2 tn).
 
   Definition lobj (k : nat) (T' : name) (sub : ptree) (nn : bool) (x : json) : vres :=
     match x with
@@ -207,189 +423,81 @@ Section FLStep.
                 end
     | _ => (x, [], false)
     end.
-
-  Lemma lift_S k sh T' sub v :
-    lift' (S k) sh T' sub v =
-    match sh with
-    | ShObj nn => lobj k T' sub nn v
-    | ShList nnl nni =>
-      match v with
-      | JArr xs =>
-        let rs := map (lobj k T' sub nni) xs in
-        let errs := flat_map (fun r : vres => snd (fst r)) rs in
-        if existsb (fun r : vres => snd r) rs then (JNull, errs, nnl)
-        else (JArr (map (fun r : vres => fst (fst r)) rs), errs, false)
-      | _ => (v, [], false)
+  Definition lobja (k : nat) (alts : list (name * bool * ptree)) (nn : bool) (x : json) : vres :=
+    match x with
+    | JObj l =>
+      match get_member s_typename l with
+      | JStr C =>
+        match find_alt C alts with
+        | Some (h, sub) => match fill' k C sub (if h then drop_tn l else l) with
+                           | (Some l', e) => (JObj l', e, false)
+                           | (None, e) => (JNull, e, nn)
+                           end
+        | None => (x, [], false)
+        end
+      | _ => (x, [], false)
       end
+    | _ => (x, [], false)
     end.
+
+  Lemma lift_S k sh T' sub v : lift' (S k) sh T' sub v = lift_shape (lobj k T' sub) sh v.
+  Proof. reflexivity. Qed.
+  Lemma lifta_S k sh alts v : lifta' (S k) sh alts v = lift_shape (lobja k alts) sh v.
+  Proof. reflexivity. Qed.
+  Lemma tr3_trG k key sh T' sub r : tr3' (S k) key sh T' sub r = trG (lobj k T' sub) key sh r.
+  Proof. reflexivity. Qed.
+  Lemma tr3a_trG k key sh alts r : tr3a' (S k) key sh alts r = trG (lobja k alts) key sh r.
   Proof. reflexivity. Qed.
 
-  Section Inner.
-    Variables (k : nat) (T' : name) (sub : ptree).
-    Hypothesis HPS : PS_at U sc subs vdsM supM f2 kq tn decls rdecls k.
-    Hypothesis Hsub : pt_static_b sc subs [] vdsM supM kq decls rdecls k T' sub = true.
-    Hypothesis HdT : declared_obj sc T' = true.
-    Hypothesis HnE : bytes_eqb T' s_Entity = false.
-    Hypothesis Hneed : (pt_need sc sub <= f2)%nat.
-
-    Definition item_inv (nn : bool) (c1 cM : cres) : Prop :=
-      (c_viol cM = true -> c_errs cM <> []) /\
-      (c_viol c1 = true -> c_viol cM = true /\ c_errs c1 <> []) /\
-      (c_viol c1 = false ->
-       let r := lobj k T' sub nn (c_json c1) in
-       fst (fst r) = c_json cM /\ snd r = c_viol cM /\ (c_errs c1 ++ snd (fst r) = [] <-> c_errs cM = [])).
-
-    Lemma item_inv_null nn q1 q2 errs1 errs2 :
-      (errs1 = [] <-> errs2 = []) -> item_inv nn (itemwrap nn q1 (cnull errs1)) (itemwrap nn q2 (cnull errs2)).
-    Proof.
-      intros He. unfold item_inv, itemwrap, nonnull_wrap, cnull. destruct nn; cbn [c_json c_errs c_viol lobj fst snd].
-      - split; [intros _; destruct errs2; discriminate|]. split; [intros _; split; [reflexivity|destruct errs1; discriminate]|discriminate].
-      - split; [discriminate|]. split; [discriminate|]. intros _. rewrite app_nil_r. repeat split; tauto.
-    Qed.
-
-    Lemma item_step nn cargs it q1 q2 :
-      item_inv nn (itemwrap nn q1 (complete_obj sc U [] vars Mono f2 T' cargs it (pt_proj sub) q1))
-                  (itemwrap nn q2 (complete_obj sc U [] vars Mono f2 T' cargs it (pt_client sub) q2)).
-    Proof.
-      unfold complete_obj.
-      destruct (obj_target U cargs it) as [[e'|]|] eqn:Et.
-      2:{ apply item_inv_null. tauto. }
-      2:{ apply item_inv_null. split; discriminate. }
-      destruct (obj_type_ok sc T' e') eqn:Eok; cbn [negb].
-      2:{ apply item_inv_null. split; discriminate. }
-      assert (HTe : en_type e' = T') by (apply (obj_type_ok_object sc); assumption).
-      assert (HinU : In e' U) by (apply (obj_target_In _ _ _ _ Et)).
-      rewrite HTe.
-      pose proof (HPS T' sub e' q1 Hsub HinU HTe Hneed) as HP. unfold mex in HP.
-      pose proof (exec_path_indep sc U [] vars Mono f2 T' {| ov_ent := e'; ov_repr := None |} (pt_client sub) q1 q2) as [HI1 HI2].
-      destruct (exec_sels sc U [] vars Mono f2 T' {| ov_ent := e'; ov_repr := None |} (pt_proj sub) q1) as [[l1|] e1] eqn:E1.
-      - destruct HP as [HP1 HP2]. rewrite HI1 in HP1. rewrite HI2 in HP2.
-        destruct (exec_sels sc U [] vars Mono f2 T' {| ov_ent := e'; ov_repr := None |} (pt_client sub) q2) as [[l2|] e2] eqn:E2;
-          cbn [fst snd] in HP1, HP2.
-        + unfold item_inv, itemwrap, nonnull_wrap. destruct nn; cbn [c_json c_errs c_viol lobj];
-            (split; [discriminate|]); (split; [discriminate|]); intros _;
-            destruct (fill' k T' sub l1) as [[l'|] fe]; cbn [fst snd] in HP1, HP2 |- *; try discriminate;
-            injection HP1 as ->; repeat split; tauto.
-        + assert (He2 : e2 <> []) by (apply (exec_sels_none_errs sc U [] vars Mono _ _ _ _ _ _ E2)).
-          unfold item_inv, itemwrap, nonnull_wrap, cnull. destruct nn; cbn [c_json c_errs c_viol lobj].
-          * split; [intros _; destruct e2; [congruence|discriminate]|]. split; [discriminate|]. intros _.
-            destruct (fill' k T' sub l1) as [[l'|] fe]; cbn [fst snd] in HP1, HP2 |- *; try discriminate.
-            split; [reflexivity|]. split; [reflexivity|]. destruct e2; [congruence|]. rewrite HP2. split; discriminate.
-          * split; [discriminate|]. split; [discriminate|]. intros _.
-            destruct (fill' k T' sub l1) as [[l'|] fe]; cbn [fst snd] in HP1, HP2 |- *; try discriminate.
-            split; [reflexivity|]. split; [reflexivity|]. exact HP2.
-      - rewrite HI1 in HP.
-        assert (He1 : e1 <> []) by (apply (exec_sels_none_errs sc U [] vars Mono _ _ _ _ _ _ E1)).
-        destruct (exec_sels sc U [] vars Mono f2 T' {| ov_ent := e'; ov_repr := None |} (pt_client sub) q2) as [[l2|] e2] eqn:E2;
-          cbn [fst] in HP; [discriminate|].
-        assert (He2 : e2 <> []) by (apply (exec_sels_none_errs sc U [] vars Mono _ _ _ _ _ _ E2)).
-        apply item_inv_null. tauto.
-    Qed.
-
-    (* ---- the two list loops ---- *)
-    Definition loop_inv (nni : bool) (L1 LM : list json * list xerr * bool) : Prop :=
-      (snd LM = true -> snd (fst LM) <> []) /\
-      (snd L1 = true -> snd LM = true /\ snd (fst L1) <> []) /\
-      (snd L1 = false ->
-       let rs := map (lobj k T' sub nni) (fst (fst L1)) in
-       map (fun r : vres => fst (fst r)) rs = fst (fst LM) /\
-       existsb (fun r : vres => snd r) rs = snd LM /\
-       (snd (fst L1) ++ flat_map (fun r : vres => snd (fst r)) rs = [] <-> snd (fst LM) = [])).
-
-    Lemma loop_step nni (cf1 cfM : fval -> list pel -> cres) q1 q2 items :
-      (forall it i, item_inv nni (cf1 it (q1 ++ [PI i])) (cfM it (q2 ++ [PI i]))) ->
-      forall i, loop_inv nni (lst_loop cf1 q1 i items) (lst_loop cfM q2 i items).
-    Proof.
-      intros H. induction items as [|it rest IH]; intros i.
-      - cbn [lst_loop]. unfold loop_inv. cbn [fst snd map existsb flat_map app].
-        split; [discriminate|]. split; [discriminate|]. intros _. repeat split; tauto.
-      - cbn [lst_loop]. specialize (IH (i + 1)).
-        destruct (lst_loop cf1 q1 (i + 1) rest) as [[out1 errs1] viol1].
-        destruct (lst_loop cfM q2 (i + 1) rest) as [[outM errsM] violM].
-        destruct IH as (I1 & I2 & I3). cbn [fst snd] in I1, I2, I3.
-        destruct (H it i) as (J1 & J2 & J3).
-        unfold loop_inv. cbn [fst snd].
-        split; [|split].
-        + intros Hor. apply orb_true_iff in Hor. intros Hn. apply app_nil_iff in Hn. destruct Hn as [Hn1 Hn2].
-          destruct Hor as [Hv|Hv]; [apply (J1 Hv Hn1)|apply (I1 Hv Hn2)].
-        + intros Hor. apply orb_true_iff in Hor. destruct Hor as [Hv|Hv].
-          * destruct (J2 Hv) as [K1 K2]. rewrite K1. split; [reflexivity|].
-            intros Hn. apply app_nil_iff in Hn. apply K2. apply Hn.
-          * destruct (I2 Hv) as [K1 K2]. rewrite K1, orb_true_r. split; [reflexivity|].
-            intros Hn. apply app_nil_iff in Hn. apply K2. apply Hn.
-        + intros Hor. apply orb_false_iff in Hor. destruct Hor as [Hv1 Hv2].
-          specialize (J3 Hv1). specialize (I3 Hv2). cbv zeta in J3, I3 |- *.
-          destruct J3 as (K1 & K2 & K3). destruct I3 as (K4 & K5 & K6).
-          cbn [map existsb flat_map].
-          split; [rewrite K1, K4; reflexivity|]. split; [rewrite K2, K5; reflexivity|].
-          rewrite !app_nil_iff in *. tauto.
-    Qed.
-
-    (* ---- from the value of the field to the one-member result ---- *)
-    Lemma obj_final nn key q' p' (c1 cM : cres) :
-      item_inv nn (itemwrap nn q' c1) (itemwrap nn p' cM) ->
-      sres_weq (tr3' (S k) key (ShObj nn) T' sub (field_result nn key q' c1)) (field_result nn key p' cM).
-    Proof.
-      intros (J1 & J2 & J3). unfold field_result.
-      change (if nn then nonnull_wrap q' c1 else c1) with (itemwrap nn q' c1).
-      change (if nn then nonnull_wrap p' cM else cM) with (itemwrap nn p' cM).
-      destruct (c_viol (itemwrap nn q' c1)) eqn:Ev1.
-      - destruct (J2 eq_refl) as [K1 K2]. rewrite K1. cbn [tr3]. split; [reflexivity|]. cbn [snd].
-        specialize (J1 K1). tauto.
-      - specialize (J3 eq_refl). cbv zeta in J3. destruct J3 as (K1 & K2 & K3).
-        unfold tr3. rewrite lift_S.
-        destruct (lobj k T' sub nn (c_json (itemwrap nn q' c1))) as [[v fe] viol]. cbn [fst snd] in K1, K2, K3.
-        rewrite <- K2. subst v. unfold vres_sres.
-        destruct viol; cbn [fst snd]; (split; [reflexivity|exact K3]).
-    Qed.
-
-    Lemma list_final nnl nni key q' p' L1 LM :
-      loop_inv nni L1 LM ->
-      sres_weq (tr3' (S k) key (ShList nnl nni) T' sub (field_result nnl key q' (list_finish L1)))
-               (field_result nnl key p' (list_finish LM)).
-    Proof.
-      destruct L1 as [[out1 errs1] viol1]. destruct LM as [[outM errsM] violM].
-      intros (I1 & I2 & I3). cbn [fst snd] in I1, I2, I3. unfold list_finish.
-      destruct viol1.
-      - destruct (I2 eq_refl) as [-> K2]. specialize (I1 eq_refl).
-        unfold field_result, nonnull_wrap, cnull. destruct nnl; cbn [c_json c_errs c_viol tr3 fst snd].
-        + split; [reflexivity|]. cbn [snd]. destruct errs1, errsM; try congruence; split; discriminate.
-        + rewrite lift_S. cbn [vres_sres fst snd]. rewrite app_nil_r. split; [reflexivity|]. cbn [snd]. tauto.
-      - specialize (I3 eq_refl). cbv zeta in I3. destruct I3 as (K1 & K2 & K3).
-        assert (HL : field_result nnl key q' {| c_json := JArr out1; c_errs := errs1; c_viol := false |} =
-                     (Some [(key, JArr out1)], errs1)).
-        { unfold field_result, nonnull_wrap. destruct nnl; reflexivity. }
-        rewrite HL. unfold tr3. rewrite lift_S. cbv zeta. rewrite K2.
-        destruct violM.
-        + specialize (I1 eq_refl).
-          unfold field_result, nonnull_wrap, cnull, vres_sres. destruct nnl; cbn [c_json c_errs c_viol fst snd].
-          * split; [reflexivity|]. cbn [snd]. destruct errsM; [congruence|]. rewrite K3. split; discriminate.
-          * split; [reflexivity|]. cbn [snd]. exact K3.
-        + rewrite K1.
-          assert (HR : field_result nnl key p' {| c_json := JArr outM; c_errs := errsM; c_viol := false |} =
-                       (Some [(key, JArr outM)], errsM)).
-          { unfold field_result, nonnull_wrap. destruct nnl; reflexivity. }
-          rewrite HR. unfold vres_sres. cbn [fst snd]. split; [reflexivity|exact K3].
-    Qed.
-    Lemma null_final nnl nni key q' p' errs1 errs2 :
-      (errs1 = [] <-> errs2 = []) ->
-      sres_weq (tr3' (S k) key (ShList nnl nni) T' sub (field_result nnl key q' (cnull errs1)))
-               (field_result nnl key p' (cnull errs2)).
-    Proof.
-      intros He. unfold field_result, nonnull_wrap, cnull. destruct nnl; cbn [c_json c_errs c_viol tr3 fst snd].
-      - split; [reflexivity|]. cbn [snd]. destruct errs1, errs2; split; discriminate.
-      - rewrite lift_S. cbn [vres_sres fst snd]. rewrite app_nil_r. split; [reflexivity|]. cbn [snd]. exact He.
-    Qed.
-  End Inner.
-
   Lemma pt_static_obj k T pt :
-    pt_static_b sc subs [] vdsM supM kq decls rdecls k T pt = true ->
+    pt_static_b sc subs [] vdsM supM kq ab decls rdecls k T pt = true ->
     declared_obj sc T = true /\ bytes_eqb T s_Entity = false.
   Proof.
     destruct k as [|k]; [discriminate|]. destruct pt as [items fetches]. cbn [pt_static_b]. intros H.
     repeat (apply andb_true_iff in H; destruct H as [H ?]).
     split; [exact H|]. apply negb_true_iff. assumption.
   Qed.
+
+  (* ---- one object value below a field whose type is the object type of the plan tree ---- *)
+  Section Inner.
+    Variables (k : nat) (T' : name) (sub : ptree).
+    Hypothesis HPS : PS_at U sc subs vdsM supM f2 kq tn decls rdecls ab k.
+    Hypothesis Hsub : pt_static_b sc subs [] vdsM supM kq ab decls rdecls k T' sub = true.
+    Hypothesis Hneed : (pt_need sc sub <= f2)%nat.
+
+    Lemma item_step nn cargs it q1 q2 :
+      item_inv (lobj k T' sub) nn
+               (itemwrap nn q1 (complete_obj sc U [] vars Mono f2 T' cargs it (pt_proj sub) q1))
+               (itemwrap nn q2 (complete_obj sc U [] vars Mono f2 T' cargs it (pt_client sub) q2)).
+    Proof.
+      destruct (pt_static_obj k T' sub Hsub) as [HdT HnE].
+      assert (HLn : forall nn0, lobj k T' sub nn0 JNull = (JNull, [], false)) by reflexivity.
+      unfold complete_obj.
+      destruct (obj_target U cargs it) as [[e'|]|] eqn:Et.
+      2:{ apply (item_inv_null _ HLn). tauto. }
+      2:{ apply (item_inv_null _ HLn). split; discriminate. }
+      destruct (obj_type_ok sc T' e') eqn:Eok; cbn [negb].
+      2:{ apply (item_inv_null _ HLn). split; discriminate. }
+      assert (HTe : en_type e' = T') by (apply (obj_type_ok_object sc); assumption).
+      assert (HinU : In e' U) by (apply (obj_target_In _ _ _ _ Et)).
+      rewrite HTe.
+      pose proof (HPS T' sub e' q1 Hsub HinU HTe Hneed) as HP. unfold mex in HP.
+      pose proof (exec_path_indep sc U [] vars Mono f2 T' {| ov_ent := e'; ov_repr := None |} (pt_client sub) q1 q2) as [HI1 HI2].
+      set (r1 := exec_sels sc U [] vars Mono f2 T' {| ov_ent := e'; ov_repr := None |} (pt_proj sub) q1) in *.
+      set (rM := exec_sels sc U [] vars Mono f2 T' {| ov_ent := e'; ov_repr := None |} (pt_client sub) q2) in *.
+      change (let '(o, errs) := r1 in match o with Some l => {| c_json := JObj l; c_errs := errs; c_viol := false |} | None => cnull errs end)
+        with (objres r1).
+      change (let '(o, errs) := rM in match o with Some l => {| c_json := JObj l; c_errs := errs; c_viol := false |} | None => cnull errs end)
+        with (objres rM).
+      apply (item_inv_obj _ HLn).
+      - destruct r1 as [o1 e1] eqn:E1. cbn [fst snd]. intros ->. apply (exec_sels_none_errs sc U [] vars Mono _ _ _ _ _ _ E1).
+      - destruct rM as [oM eM] eqn:EM. cbn [fst snd]. intros ->. apply (exec_sels_none_errs sc U [] vars Mono _ _ _ _ _ _ EM).
+      - destruct r1 as [[l1|] e1].
+        + destruct HP as (HP1 & HP2 & _). exists (fill' k T' sub l1). split; [reflexivity|].
+          rewrite HI1 in HP1. rewrite HI2 in HP2. split; assumption.
+        + rewrite HI1 in HP. exact HP.
+    Qed.
+  End Inner.
 
   Lemma item_need_PDown a n args sh T' sub :
     (item_need sc (PDown a n args sh T' sub) <= f2)%nat ->
@@ -400,14 +508,14 @@ Section FLStep.
     unfold item_need.
     change (item_proj (PDown a n args sh T' sub)) with (SField a n args [] (pt_proj sub)).
     change (item_client (PDown a n args sh T' sub)) with (SField a n args [] (pt_client sub)).
-    intros H.
+    cbn [sub_need]. intros H.
     apply Nat.max_lub_iff in H. destruct H as [H1 H]. apply Nat.max_lub_iff in H. destruct H as [H2 H3].
     repeat split; [clear -H1; lia|clear -H2; lia|exact H3].
   Qed.
 
   Lemma FL_step k :
-    PS_at U sc subs vdsM supM f2 kq tn decls rdecls k ->
-    FL_at U sc subs vdsM supM f2 kq tn decls rdecls (S k).
+    PS_at U sc subs vdsM supM f2 kq tn decls rdecls ab k ->
+    FL_at U sc subs vdsM supM f2 kq tn decls rdecls ab (S k).
   Proof.
     intros HPS T e a n args sh T' sub p q Hst HeU HeT Hneed.
     cbn [item_static_b] in Hst.
@@ -415,38 +523,201 @@ Section FLStep.
     apply andb_true_iff in Hst. destruct Hst as [Hst Hleaf].
     apply andb_true_iff in Hst. destruct Hst as [Hname Hfty]. apply negb_true_iff in Hname.
     destruct (is_leaf_kind sc T') as [[|]|] eqn:Elk; try discriminate. clear Hleaf.
-    destruct (pt_static_obj k T' sub Hsub) as [HdT HnE].
-    unfold field_ty_ok in Hfty.
-    destruct (find_type T (s_types sc)) as [td|] eqn:Etd; [|discriminate].
-    destruct (find_field n (td_fields td)) as [fd|] eqn:Efd; [|discriminate].
-    apply ty_eqb_eq in Hfty.
     destruct (item_need_PDown a n args sh T' sub Hneed) as (Hb1 & Hb2 & Hb3).
-    destruct (proj1 (static_nospread sc subs [] vdsM supM kq decls rdecls k) T' sub Hsub) as [Hns1 Hns2].
-    set (ov := {| ov_ent := e; ov_repr := None |}).
-    assert (Hn1 : no_oof (snd (exec_sels sc U [] vars Mono f2 T ov [SField a n args [] (pt_proj sub)] q)) = true).
-    { apply exec_sels_fuel_sufficient; [|exact Hb1]. rewrite nospread_cons, nospread_field, Hns1. reflexivity. }
-    assert (Hn2 : no_oof (snd (exec_sels sc U [] vars Mono f2 T ov [SField a n args [] (pt_client sub)] p)) = true).
-    { apply exec_sels_fuel_sufficient; [|exact Hb2]. rewrite nospread_cons, nospread_field, Hns2. reflexivity. }
-    unfold mex. fold ov.
-    destruct sh as [nn|nnl nni]; cbn [shape_ty] in Hfty.
-    - assert (Hle : (f2 <= hop_fuel nn f2)%nat) by (unfold hop_fuel; clear; destruct nn; lia).
-      rewrite <- (exec_sels_fuel_mono sc U [] vars Mono f2 (hop_fuel nn f2) T ov _ q Hle Hn1).
-      rewrite <- (exec_sels_fuel_mono sc U [] vars Mono f2 (hop_fuel nn f2) T ov _ p Hle Hn2).
-      rewrite (hop_exec sc U [] vars T ov a n args [] q nn T' td fd Hname Etd Efd Hfty Elk f2).
-      rewrite (hop_exec sc U [] vars T ov a n args [] p nn T' td fd Hname Etd Efd Hfty Elk f2).
-      cbn [included].
-      apply obj_final. apply (item_step k T' sub HPS Hsub HdT HnE Hb3).
-    - assert (Hle : (f2 <= list_hop_fuel nnl nni f2)%nat) by (unfold list_hop_fuel; clear; destruct nnl, nni; lia).
-      assert (H1f : (1 <= f2)%nat) by (clear -Hb1; unfold fuel_bound in Hb1; lia).
-      rewrite <- (exec_sels_fuel_mono sc U [] vars Mono f2 (list_hop_fuel nnl nni f2) T ov _ q Hle Hn1).
-      rewrite <- (exec_sels_fuel_mono sc U [] vars Mono f2 (list_hop_fuel nnl nni f2) T ov _ p Hle Hn2).
-      rewrite (list_field_exec sc U [] vars T ov a n args q nnl nni T' td fd Hname Etd Efd Hfty Elk f2 _ H1f).
-      rewrite (list_field_exec sc U [] vars T ov a n args p nnl nni T' td fd Hname Etd Efd Hfty Elk f2 _ H1f).
-      destruct (list_src (hop_fv ov n)) as [items|].
-      + apply list_final. apply loop_step. intros it i. unfold item_c.
-        apply (item_step k T' sub HPS Hsub HdT HnE Hb3).
-      + apply null_final. apply list_null_errs_iff.
+    destruct (proj1 (static_nospread sc subs [] vdsM supM kq decls rdecls ab k) T' sub Hsub) as [Hns1 Hns2].
+    rewrite tr3_trG. unfold mex.
+    apply (gen_field (lobj k T' sub) U sc vars f2 T e a n args sh T' (pt_proj sub) (pt_client sub) p q
+                     Hname Hfty Elk Hns1 Hns2 Hb1 Hb2).
+    intros nn cargs it q1 q2. apply (item_step k T' sub HPS Hsub Hb3).
+  Qed.
+
+  (* ---- a field resolved per runtime type ---- *)
+  Lemma exec_flat_eq f C ov X fl p kf :
+    flatten sc [] vars kf C X = FlatOk fl -> (kf <= f)%nat -> plain_sels fl -> (length fl < f)%nat ->
+    exec_sels sc U [] vars Mono f C ov X p = exec_sels sc U [] vars Mono f C ov fl p.
+  Proof.
+    intros Hfl Hle Hpl Hlen.
+    assert (H1 : flatten sc [] vars f C X = FlatOk fl).
+    { rewrite (flatten_mono sc [] vars kf f C X Hle); [exact Hfl|rewrite Hfl; reflexivity]. }
+    assert (H2 : flatten sc [] vars f C fl = FlatOk fl) by (apply flatten_plain; assumption).
+    rewrite (exec_sels_flat sc U [] vars Mono f C ov X p fl H1), (exec_sels_flat sc U [] vars Mono f C ov fl p fl H2). reflexivity.
+  Qed.
+
+  Lemma pt_static_plain k T pt :
+    pt_static_b sc subs [] vdsM supM kq ab decls rdecls k T pt = true -> plain_sels (pt_proj pt) /\ plain_sels (pt_client pt).
+  Proof.
+    destruct k as [|k]; [discriminate|]. destruct pt as [items fetches]. cbn [pt_static_b]. intros H.
+    apply andb_true_iff in H. destruct H as [_ H]. rewrite forallb_forall in H.
+    assert (Hit : forall ti, In ti items -> (exists a n args ss, item_proj (snd ti) = SField a n args [] ss) /\
+                                            (exists a n args ss, item_client (snd ti) = SField a n args [] ss)).
+    { intros ti Hti. specialize (H ti Hti). destruct k as [|k']; [discriminate|]. cbn [item_static_b] in H.
+      destruct (snd ti) as [s0|a n args sh T' sub|a n args sh T' csel rsel alts]; cbn [item_proj item_client].
+      - apply andb_true_iff in H. destruct H as [H _]. destruct s0 as [a n args [|? ?] ss| |]; try discriminate. split; repeat eexists.
+      - split; repeat eexists.
+      - split; repeat eexists. }
+    rewrite pt_proj_eq, pt_client_eq. split.
+    - apply Forall_app. split.
+      + apply Forall_forall. intros s0 Hs. apply in_map_iff in Hs. destruct Hs as (ti & <- & Hti). apply filter_In in Hti. apply (Hit ti (proj1 Hti)).
+      + unfold keys_from. destruct (filter _ fetches); [constructor|apply plain_key_sels].
+    - apply Forall_forall. intros s0 Hs. apply in_map_iff in Hs. destruct Hs as (ti & <- & Hti). apply (Hit ti Hti).
+  Qed.
+
+  Lemma alts_need_find csel rsel alts C h sub :
+    find_alt C alts = Some (h, sub) -> (pt_need sc sub <= alts_need sc csel rsel alts)%nat.
+  Proof.
+    unfold alts_need. induction alts as [|[[C' h'] pt] r IH]; [discriminate|]. cbn [find_alt].
+    destruct (bytes_eqb C C'); [intros H; injection H as <- <-; apply Nat.le_max_l|].
+    intros H. eapply Nat.le_trans; [apply IH; exact H|apply Nat.le_max_r].
+  Qed.
+  Lemma alts_need_fuel csel rsel alts : (abs_fuel csel rsel <= alts_need sc csel rsel alts)%nat.
+  Proof.
+    unfold alts_need. induction alts as [|[[C' h'] pt] r IH]; [apply Nat.le_refl|]. eapply Nat.le_trans; [exact IH|apply Nat.le_max_r].
+  Qed.
+
+  Section InnerAbs.
+    Variables (k : nat) (T' : name) (csel rsel : list selection) (alts : list (name * bool * ptree)).
+    Hypothesis HPS : PS_at U sc subs vdsM supM f2 kq tn decls rdecls ab k.
+    Hypothesis HnE : bytes_eqb T' s_Entity = false.
+    Hypothesis Hty : types_ok_b sc U = true.
+    Hypothesis Halts :
+      forallb (fun td => negb (is_obj_kind (td_kind td) && type_applies sc (td_name td) T') ||
+                         match find_alt (td_name td) alts with
+                         | Some (h, sub) =>
+                           flat_is (flatten sc [] vars (abs_fuel csel rsel) (td_name td) csel) (pt_client sub) &&
+                           flat_is (flatten sc [] vars (abs_fuel csel rsel) (td_name td) rsel)
+                                   (if h then tn_sel :: pt_proj sub else pt_proj sub) &&
+                           (if h then sels_top_nokey s_typename (pt_proj sub) else has_tn_sel (pt_proj sub)) &&
+                           pt_static_b sc subs [] vdsM supM kq ab decls rdecls k (td_name td) sub
+                         | None => false
+                         end) (s_types sc) = true.
+    Hypothesis Hneed : (alts_need sc csel rsel alts <= f2)%nat.
+
+    Lemma item_step_abs nn cargs it q1 q2 :
+      item_inv (lobja k alts) nn
+               (itemwrap nn q1 (complete_obj sc U [] vars Mono f2 T' cargs it rsel q1))
+               (itemwrap nn q2 (complete_obj sc U [] vars Mono f2 T' cargs it csel q2)).
+    Proof.
+      assert (HLn : forall nn0, lobja k alts nn0 JNull = (JNull, [], false)) by reflexivity.
+      unfold complete_obj.
+      destruct (obj_target U cargs it) as [[e'|]|] eqn:Et.
+      2:{ apply (item_inv_null _ HLn). tauto. }
+      2:{ apply (item_inv_null _ HLn). split; discriminate. }
+      destruct (obj_type_ok sc T' e') eqn:Eok; cbn [negb].
+      2:{ apply (item_inv_null _ HLn). split; discriminate. }
+      assert (HinU : In e' U) by (apply (obj_target_In _ _ _ _ Et)).
+      set (C := en_type e') in *.
+      assert (HdC : declared_obj sc C = true).
+      { unfold types_ok_b in Hty. rewrite forallb_forall in Hty. apply (Hty e' HinU). }
+      pose proof HdC as HdC'. unfold declared_obj in HdC'.
+      destruct (find_type C (s_types sc)) as [td|] eqn:Eft; [|discriminate].
+      destruct (find_type_In _ _ _ Eft) as [Hin Hnm].
+      assert (Happ : type_applies sc C T' = true).
+      { unfold obj_type_ok in Eok. change [95; 69; 110; 116; 105; 116; 121] with s_Entity in Eok.
+        destruct (kind_of sc T'); [|congruence].
+        unfold possible in Eok. change [95; 69; 110; 116; 105; 116; 121] with s_Entity in Eok. rewrite HnE in Eok. exact Eok. }
+      pose proof Halts as Ha. rewrite forallb_forall in Ha. specialize (Ha td Hin). rewrite Hnm, HdC', Happ in Ha. cbn [andb negb orb] in Ha.
+      destruct (find_alt C alts) as [[h sub]|] eqn:Efa; [|discriminate].
+      apply andb_true_iff in Ha. destruct Ha as [Ha Hsub].
+      apply andb_true_iff in Ha. destruct Ha as [Ha Htn].
+      apply andb_true_iff in Ha. destruct Ha as [Hfc Hfr].
+      destruct (flatten sc [] vars (abs_fuel csel rsel) C csel) as [lc|] eqn:Efc; [|discriminate]. cbn [flat_is] in Hfc. apply sels_eqb_eq in Hfc. subst lc.
+      destruct (flatten sc [] vars (abs_fuel csel rsel) C rsel) as [lr|] eqn:Efr; [|discriminate]. cbn [flat_is] in Hfr. apply sels_eqb_eq in Hfr. subst lr.
+      assert (Hns : (pt_need sc sub <= f2)%nat) by (eapply Nat.le_trans; [apply (alts_need_find csel rsel alts C h sub Efa)|exact Hneed]).
+      assert (Hfu : (abs_fuel csel rsel <= f2)%nat) by (eapply Nat.le_trans; [apply (alts_need_fuel csel rsel alts)|exact Hneed]).
+      destruct (pt_static_plain k C sub Hsub) as [Hpp Hpc].
+      assert (Hlp : (length (pt_proj sub) + 5 < f2)%nat /\ (length (pt_client sub) < f2)%nat).
+      { destruct sub as [items fetches]. cbn [pt_need] in Hns.
+        pose proof (length_le_sels_size (pt_proj (PT items fetches))) as L1.
+        pose proof (length_le_sels_size (pt_client (PT items fetches))) as L2.
+        pose proof (arith_flat (sels_size (pt_proj (PT items fetches))) (schema_ty_depth sc)) as A1.
+        pose proof (arith_flat (sels_size (pt_client (PT items fetches))) (schema_ty_depth sc)) as A2.
+        apply Nat.max_lub_iff in Hns. destruct Hns as [N1 N2]. apply Nat.max_lub_iff in N2. destruct N2 as [N2 _].
+        unfold fuel_bound, level_cost in N1, N2. clear -L1 L2 A1 A2 N1 N2. split; lia. }
+      set (ov' := {| ov_ent := e'; ov_repr := None |}).
+      rewrite (exec_flat_eq f2 C ov' csel (pt_client sub) q2 _ Efc Hfu Hpc (proj2 Hlp)).
+      pose proof (HPS C sub e' q1 Hsub HinU eq_refl Hns) as HP. unfold mex in HP. fold ov' in HP.
+      pose proof (exec_path_indep sc U [] vars Mono f2 C ov' (pt_client sub) q1 q2) as [HI1 HI2].
+      set (r1 := exec_sels sc U [] vars Mono f2 C ov' (pt_proj sub) q1) in *.
+      set (rM := exec_sels sc U [] vars Mono f2 C ov' (pt_client sub) q2) in *.
+      (* what the source answers for its own selection *)
+      assert (Hreal : exec_sels sc U [] vars Mono f2 C ov' rsel q1 =
+                      if h then match r1 with
+                                | (Some l1, e1) => (Some ((s_typename, JStr C) :: l1), e1)
+                                | (None, e1) => (None, e1)
+                                end
+                      else r1).
+      { destruct h.
+        - assert (Hpl : plain_sels (tn_sel :: pt_proj sub)).
+          { constructor; [exists None, s_typename, [], []; reflexivity|exact Hpp]. }
+          rewrite (exec_flat_eq f2 C ov' rsel (tn_sel :: pt_proj sub) q1 _ Efr Hfu Hpl); [|cbn [length]; clear -Hlp; lia].
+          change (tn_sel :: pt_proj sub) with ([tn_sel] ++ pt_proj sub).
+          assert (Hf1 : flatten sc [] vars f2 C [tn_sel] = FlatOk [tn_sel]).
+          { apply flatten_plain; [constructor; [exists None, s_typename, [], []; reflexivity|constructor]|cbn [length]; clear -Hlp; lia]. }
+          assert (Hf2 : flatten sc [] vars f2 C (pt_proj sub) = FlatOk (pt_proj sub)) by (apply flatten_plain; [exact Hpp|clear -Hlp; lia]).
+          rewrite (exec_split_eq sc U [] vars Mono f2 C ov' [tn_sel] (pt_proj sub) q1 [tn_sel] (pt_proj sub) Hf1 Hf2).
+          + assert (Ht : exec_sels sc U [] vars Mono f2 C ov' [tn_sel] q1 = (Some [(s_typename, JStr C)], [])).
+            { pose proof (exec_key_field sc U vars e' s_typename None [] [] q1 f2) as Hk. cbv zeta in Hk. fold C in Hk. fold ov' in Hk.
+              unfold tn_sel, key_sel. rewrite Hk; [unfold key_val; rewrite bytes_eqb_refl; reflexivity| |clear -Hlp; lia].
+              unfold key_ok. rewrite bytes_eqb_refl. reflexivity. }
+            rewrite Ht. fold r1. unfold split_merge. cbn [fst snd app]. destruct r1 as [[l1|] e1]; reflexivity.
+          + cbn [app]. rewrite flatten_plain; [reflexivity|exact Hpl|cbn [length]; clear -Hlp; lia].
+          + cbn [keys_disjoint forallb]. rewrite andb_true_r. apply negb_true_iff.
+            apply (flatten_top_nokey sc [] vars s_typename f2 C (pt_proj sub) (pt_proj sub) Htn Hf2).
+        - rewrite (exec_flat_eq f2 C ov' rsel (pt_proj sub) q1 _ Efr Hfu Hpp); [reflexivity|clear -Hlp; lia]. }
+      rewrite Hreal.
+      set (rR := if h then match r1 with (Some l1, e1) => (Some ((s_typename, JStr C) :: l1), e1) | (None, e1) => (None, e1) end else r1).
+      change (let '(o, errs) := rR in match o with Some l => {| c_json := JObj l; c_errs := errs; c_viol := false |} | None => cnull errs end)
+        with (objres rR).
+      change (let '(o, errs) := rM in match o with Some l => {| c_json := JObj l; c_errs := errs; c_viol := false |} | None => cnull errs end)
+        with (objres rM).
+      assert (Hn1 : fst r1 = None -> snd r1 <> []).
+      { destruct r1 as [o1 e1] eqn:E1. cbn [fst snd]. intros ->. apply (exec_sels_none_errs sc U [] vars Mono _ _ _ _ _ _ E1). }
+      apply (item_inv_obj _ HLn).
+      - unfold rR. destruct h; [|exact Hn1]. destruct r1 as [[l1|] e1]; cbn [fst snd] in *; [discriminate|exact Hn1].
+      - destruct rM as [oM eM] eqn:EM. cbn [fst snd]. intros ->. apply (exec_sels_none_errs sc U [] vars Mono _ _ _ _ _ _ EM).
+      - unfold rR. destruct r1 as [[l1|] e1].
+        + destruct HP as (HP1 & HP2 & HP3). rewrite HI1 in HP1. rewrite HI2 in HP2.
+          destruct h.
+          * exists (fill' k C sub l1). split; [|split; assumption].
+            unfold lobja. unfold get_member. cbn [obj_get]. rewrite bytes_eqb_refl. rewrite Efa. cbn [drop_tn]. rewrite bytes_eqb_refl. reflexivity.
+          * exists (fill' k C sub l1). split; [|split; assumption].
+            unfold lobja. rewrite (HP3 Htn), Efa. reflexivity.
+        + rewrite HI1 in HP. destruct h; exact HP.
+    Qed.
+  End InnerAbs.
+
+  Lemma item_need_PAbs a n args sh T' csel rsel alts :
+    (item_need sc (PAbs a n args sh T' csel rsel alts) <= f2)%nat ->
+    (fuel_bound sc [SField a n args [] rsel] <= f2)%nat /\
+    (fuel_bound sc [SField a n args [] csel] <= f2)%nat /\
+    (alts_need sc csel rsel alts <= f2)%nat.
+  Proof.
+    unfold item_need. cbn [item_proj item_client sub_need]. intros H.
+    apply Nat.max_lub_iff in H. destruct H as [H1 H]. apply Nat.max_lub_iff in H. destruct H as [H2 H3].
+    repeat split; [clear -H1; lia|clear -H2; lia|exact H3].
+  Qed.
+
+  Lemma FA_step k :
+    (ab = true -> types_ok_b sc U = true) ->
+    PS_at U sc subs vdsM supM f2 kq tn decls rdecls ab k ->
+    FA_at U sc subs vdsM supM f2 kq tn decls rdecls ab (S k).
+  Proof.
+    intros Hty HPS T e a n args sh T' csel rsel alts p q Hst HeU HeT Hneed.
+    cbn [item_static_b] in Hst.
+    apply andb_true_iff in Hst. destruct Hst as [Hst Halts].
+    apply andb_true_iff in Hst. destruct Hst as [Hst Hnr].
+    apply andb_true_iff in Hst. destruct Hst as [Hst Hnc].
+    apply andb_true_iff in Hst. destruct Hst as [Hst HnE]. apply negb_true_iff in HnE.
+    apply andb_true_iff in Hst. destruct Hst as [Hst Hleaf].
+    apply andb_true_iff in Hst. destruct Hst as [Hst Hfty].
+    apply andb_true_iff in Hst. destruct Hst as [Hab Hname]. apply negb_true_iff in Hname.
+    destruct (is_leaf_kind sc T') as [[|]|] eqn:Elk; try discriminate. clear Hleaf.
+    destruct (item_need_PAbs a n args sh T' csel rsel alts Hneed) as (Hb1 & Hb2 & Hb3).
+    rewrite tr3a_trG. unfold mex.
+    apply (gen_field (lobja k alts) U sc vars f2 T e a n args sh T' rsel csel p q Hname Hfty Elk Hnr Hnc Hb1 Hb2).
+    intros nn cargs it q1 q2. apply (item_step_abs k T' csel rsel alts HPS HnE (Hty Hab) Halts Hb3).
   Qed.
 End FLStep.
 
 Print Assumptions FL_step.
+Print Assumptions FA_step.
